@@ -171,6 +171,10 @@ func RoutePatternMatch(path, pattern string, cfg ...Config) bool {
 	parser.reset()
 	parser.parseRoute(string(patternPretty))
 	defer routerParserPool.Put(parser)
+	if !config.CaseSensitive && strings.IndexByte(pattern, paramConstraintStart) >= 0 {
+		raw := parseRoute(pattern)
+		declaredConstraints(parser, &raw)
+	}
 	if n := len(parser.segs); config.StrictRouting && n > 0 && !parser.segs[n-1].IsParam {
 		parser.segs[n-1].HasOptionalSlash = false
 	}
@@ -238,6 +242,26 @@ func parseRoute(pattern string, customConstraints ...CustomConstraint) routePars
 	parser := routeParser{}
 	parser.parseRoute(pattern, customConstraints...)
 	return parser
+}
+
+// declaredConstraints gives the parameter segments of the routing parser (built from the case-folded
+// pattern) the constraints as the application declared them: case folding is for the path; the name of a
+// custom constraint, a regular expression and a datetime layout keep their letters.
+func declaredConstraints(pretty, raw *routeParser) {
+	j := 0
+	for _, seg := range pretty.segs {
+		if !seg.IsParam {
+			continue
+		}
+		for j < len(raw.segs) && !raw.segs[j].IsParam {
+			j++
+		}
+		if j == len(raw.segs) {
+			return
+		}
+		seg.Constraints = raw.segs[j].Constraints
+		j++
+	}
 }
 
 // addParameterMetaInfo add important meta information to the parameter segments
